@@ -78,8 +78,8 @@ package object
 //gvc:  loop 1 invariant modes: len(errs) == 0 ==> forall(a, 0, it1, spec_tree_mode(t.Entries[a].Mode))
 //gvc:  ensures modes: result == nil ==> forall(a, 0, len(t.Entries), spec_tree_mode(t.Entries[a].Mode))
 //gvc:  loop 1 invariant bad: forall(k, 0, len(errs), errs[k] != nil)
-//gvc:  loop 1 invariant names: len(errs) == 0 ==> forall(a, 0, it1, len(t.Entries[a].Name) > 0 && has(seen, strid(t.Entries[a].Name)) && !exists(k, 0, len(t.Entries[a].Name), t.Entries[a].Name[k] == '/'))
-//gvc:  loop 1 invariant seenonly: forall(k, has(seen, k) ==> exists(a, 0, it1, strid(t.Entries[a].Name) == k))
+//gvc:  loop 1 invariant names: len(errs) == 0 ==> forall(a, 0, it1, len(t.Entries[a].Name) > 0 && !exists(k, 0, len(t.Entries[a].Name), t.Entries[a].Name[k] == '/'))
+//gvc:  loop 1 invariant inseen: len(errs) == 0 ==> forall(a, 0, it1, has(seen, strid(t.Entries[a].Name)))
 //gvc:  loop 1 invariant nodup: len(errs) == 0 ==> forall(a, 0, it1, forall(b, 0, a, strid(t.Entries[a].Name) != strid(t.Entries[b].Name)))
 //gvc:  ensures nodup: result == nil ==> forall(a, 0, len(t.Entries), forall(b, 0, a, strid(t.Entries[a].Name) != strid(t.Entries[b].Name)))
 //gvc:  ensures named: result == nil ==> forall(a, 0, len(t.Entries), len(t.Entries[a].Name) > 0 && !exists(k, 0, len(t.Entries[a].Name), t.Entries[a].Name[k] == '/'))
